@@ -673,7 +673,7 @@ def run_c10(ctx):
     build_harness(ctx)
     quick = ctx.tier == 'quick'
     model_check(ctx, 'CRCProps', 'CRCProps.cfg', workers=4)
-    scs = [{'sid': 'crc-table', 'kind': 'crc', 'part': 'table', 'seed': ctx.seed}]
+    scs = [{'sid': 'crc-table', 'kind': 'crc', 'part': 'table', 'seed': ctx.seed}, {'sid': 'crc-long', 'kind': 'crc', 'part': 'long', 'seed': ctx.seed}]
     nb = 4 if quick else 16
     for i in range(nb):
         scs.append({'sid': 'crc-basis-%d' % i, 'kind': 'crc', 'part': 'basis', 'seed': ctx.seed + i, 'n': 40 if quick else 400})
